@@ -53,7 +53,7 @@ def gen_events(tier, rnd):
                 teeth=teeth, E=N if E is None else rstr(E))
             add('HelicalGear', _o(lambda: HelicalGear('g', teeth, J, Angle(20, 'deg'), module=Length(1, 'mm'), face_width=Length(5, 'mm'), elastic_modulus=Eq)),
                 teeth=teeth, E=N if E is None else rstr(E), helix=rstr(math.radians(20)))
-    hel = [0.0, 10.0, 45.0, 89.0, 89.999, 90.0, 90.001, 120.0, 180.0, 359.0]
+    hel = [0.0, 10.0, 45.0, 89.0, 89.999, 90.0, 90.001, 120.0, 180.0, 359.0, 360.0, 365.0, 400.0, 449.9, 450.0, 749.5, 3610.0]     # (beyond one turn too)
     for h in hel:
         a = Angle(h, 'deg')
         add('HelicalGear', _o(lambda: HelicalGear('g', 20, J, a)), teeth=20, E=N, helix=rstr(a.to('rad').value))
@@ -86,7 +86,7 @@ def gen_events(tier, rnd):
                     H = Angle(h, 'deg')
                     add('WormGear', _o(lambda: WormGear('w', 2, J, H, A)), starts=2, helix=rstr(H.to('rad').value), alpha=rstr(A.to('rad').value))
                     add('WormWheel', _o(lambda: WormWheel('w', 30, J, H, A)), teeth=30, helix=rstr(H.to('rad').value), alpha=rstr(A.to('rad').value))
-    for h in (45.0, 89.9, 90.1, 135.0):
+    for h in (45.0, 89.9, 90.1, 135.0, 365.0, 401.0, 765.0):
         for unit, val in (('rad', _m.radians(h)), ('rot', h / 360), ('arcmin', h * 60), ('arcsec', h * 3600)):
             a = Angle(val, unit)
             add('HelicalGear', _o(lambda: HelicalGear('g', 20, J, a)), teeth=20, E=N, helix=rstr(a.to('rad').value))
